@@ -6,6 +6,7 @@ import Prom.Drv.Local
 import Prom.Drv.Timer
 import Prom.Drv.Fall
 import Prom.Drv.Conc
+import Prom.Drv.Text
 /- Line-protocol driver: one request per line on stdin, one result per line on stdout. -/
 open Prom Prom.Drv
 
@@ -21,6 +22,7 @@ def step (st : DState) (line : String) : DState × String :=
   | ["case"] => ({}, "case")
   | "hist" :: args => (st, histHandle args)
   | "desc" :: args => (st, descHandle args)
+  | "text" :: args => (st, textHandle args)
   | "catom" :: args => (st, concHandle "catom" args)
   | "cvec" :: args => (st, concHandle "cvec" args)
   | "chist" :: args => (st, concHandle "chist" args)
